@@ -253,6 +253,12 @@ func retValue(ret *ssa.Return, idx int) ssa.Value {
 		}
 	}
 	if last != nil {
+		// `return err` of a named result that a deferred function shares: what is stored back is a reload of the variable
+		if ld, isLd := last.(*ssa.UnOp); isLd && ld.Op == token.MUL {
+			if _, isA := ld.X.(*ssa.Alloc); isA {
+				return blockLocalValue(ld)
+			}
+		}
 		return last
 	}
 	// stored in a dominating block: follow single predecessor chain
